@@ -212,6 +212,12 @@ func (r *Report) Finish(verifDir string, prog *Program, started time.Time, seed 
 		fmt.Printf("FATAL: %s\n", f)
 	}
 
+	if os.Getenv("DDCHECK_DUMP") != "" {
+		for _, o := range r.Obls {
+			fmt.Printf("OBL\t%s\t%s\t%s\t%s\t%s\n", o.Verdict, o.Rule, o.Key, o.Pos, o.Why)
+		}
+	}
+
 	// evidence
 	samples := []any{}
 	perRule := map[string]int{}
